@@ -356,3 +356,21 @@ def inherited_generic_doc():
         return {"confirmed": True, "input": {"source": c07.INHERITED_GENERIC}, "actual": bad, "expected": "the comment of a generic binding is rendered for every type that inherits the binding",
                 "how": "real pipeline + Project.markdown: tracer words of the binding's documentation per type"}
     return None
+
+
+def generic_source_docs():
+    """files of an extra file type: their documentation comments are collected under the same marker rules, indented or not; ordinary comments stay out"""
+    src = ("# ordinary ordw1\n#! plainw1 plainw2\ndef f():\n    #* altw1\n    #  altw2 altw3\n\n    # ordinary ordw2\n    x = 1  #! inlinew1\n#* topw1\n#  topw2\n")
+    st = loader.import_repo("ford.settings")
+    proj = realrun.build_project({"src/m.f90": "module m\nend module m\n", "src/tool.py": src}, extra_filetypes={"py": st.ExtraFileType("py", "#")})
+    files = getattr(proj, "extra_files", [])
+    if not files:
+        return {"confirmed": True, "input": {"tool.py": src}, "actual": "no extra file found", "expected": "tool.py documented", "how": "real Project with extra_filetypes"}
+    mdm = loader.import_repo("ford._markdown")
+    proj.markdown(mdm.MetaMarkdown(aliases={}, project=proj))
+    got = [w for w in re.findall(r"[a-z]+w\d", html.unescape(re.sub(r"<[^>]+>", " ", str(files[0].doc))))]
+    want = ["plainw1", "plainw2", "altw1", "altw2", "altw3", "inlinew1", "topw1", "topw2"]
+    if got != want:
+        return {"confirmed": True, "input": {"tool.py": src, "extra_filetypes": "py #"}, "actual": got, "expected": want,
+                "how": "real Project + Project.markdown: tracer words of the documentation of a file of an extra file type, in order"}
+    return None
